@@ -161,6 +161,7 @@ def canaries():
     finally:
         subprocess.run(["git", "-C", "/repo", "worktree", "remove", "--force", scratch], check=False)
         shutil.rmtree(scratch, ignore_errors=True)
+        shutil.rmtree("/var/tmp/repid-verif-evidence-other", ignore_errors=True)
     return out
 
 
